@@ -29,6 +29,14 @@ Correspondence (model: `lean/PercevalModel/Model/C13.lean`, driver `lean/Driver/
   `polarised_selection_spec`) — results and both performances; direct oracle: the documented conditioning applied in
   numpy to the doubled-mode distribution.
 
+* *one component of every class* (BS, PS, PERM, Unitary, Barrier, WP, HWP, QWP, PR, PBS, polarised Unitary) ×
+  `compute_unitary(use_polarization=None|True|False)` against `leafUnitary` (`leaf_compute_unitary_resolve / _table`);
+* *Processor input bookkeeping*: ONE `Processor` serving a history of `with_input` / `with_polarized_input` /
+  `noise = …` / `min_detected_photons_filter` / `clear_input_and_circuit` / `probs()`; after every `probs()` the cached
+  `source_distribution` and the photon filter are compared with the model's machine `procStep` (terms evaluated on the
+  real code: a fresh `Source` of the noise in force, `SVDistribution(bs)`), and the reply with the polarised simulation
+  of the input in force (`proc_refines_stateless`, `proc_polarised_input_exact`).
+
 The native `BasicState` keeps annotation angles in single precision, so the Jones angles are read
 *back* from the constructed state; their cos/sin (float64, external functions of the model) are sent
 to Lean as exact dyadic rationals.  Leaf matrices of ordinary components come from each leaf's own
@@ -1924,6 +1932,403 @@ def check_labels(chk):
 
 
 # ------------------------------------------------------------------------------------------------
+# ------------------------------------------------------------------------------------------------
+# extension 3a: `compute_unitary(use_polarization=flag)` on ONE component of every class (`leafUnitary`)
+# ------------------------------------------------------------------------------------------------
+LEAF_CLASSES = ("BS", "PS", "PERM", "U", "UH", "Barrier", "WP", "HWP", "QWP", "PR", "PBS", "PU", "PUH")
+
+
+def gen_leaf_of(rng, cls):
+    if cls in POL_KINDS:
+        for _ in range(200):
+            lf = gen_pol_leaf(rng, 2)
+            if lf["t"] == cls:
+                return lf
+        raise RuntimeError("no leaf of class " + cls)
+    return gens.gen_leaf(rng, 3, kinds=(cls,))
+
+
+def observe_leaf(case):
+    obj, lj = build_leaf(copy.deepcopy(case["leaf"]))
+    out = {"lean": lj, "m": obj.m, "requires": bool(obj.requires_polarization)}
+    try:
+        flag = case["flag"]
+        u = obj.compute_unitary() if flag is None else obj.compute_unitary(use_polarization=flag)
+        out["U"] = np.array(u, dtype=complex)
+    except Exception as e:
+        out.update(exc(e))
+    return out
+
+
+def judge_leaf(chk, case, obs=None, rep=None):
+    """-> None | (kind, signature, what, replay)"""
+    if obs is None:
+        obs = observe_leaf(case)
+    if rep is None:
+        rep = chk.lean.ask({"op": "leaf", "kind": obs["lean"], "flag": case["flag"]})
+    replay = {"case": case}
+    cls, flag = case["leaf"]["t"], case["flag"]
+    pol = cls in POL_KINDS
+    if obs["requires"] != pol:
+        return ("violation", "leaf-requires-polarization", f"{cls}.requires_polarization is {obs['requires']}", replay)
+    if not pol and len(obs["lean"]["U"]) != obs["m"]:
+        # (the harness reads an ordinary component's own matrix through compute_unitary() without flag)
+        return ("violation", "leaf-doubling-wrong", f"{cls}.compute_unitary() of a component without polarisation "
+                f"support on {obs['m']} mode(s) has {len(obs['lean']['U'])} rows", replay)
+    if "err" in rep:
+        if rep["err"] != "AssertionError":
+            return ("broken", "model-rejects", f"model rejects a single {cls}: {rep['err']}", replay)
+        if obs.get("err") == "AssertionError":
+            chk.branch("leaf-pol-false-rejected")
+            return None
+        if "err" in obs:
+            return ("broken", "error-class", f"real code raised {obs['err']}, model AssertionError", replay)
+        return ("violation", "polarised-circuit-gives-spatial-matrix",
+                f"{cls}.compute_unitary(use_polarization=False) returned a matrix for a polarising component", replay)
+    model_u = np.array(core.unmat(rep["U"]), dtype=complex)
+    # the statement, directly: a polarising class reports its own 2m × 2m matrix; any other class its own m × m matrix
+    # for None / False and that matrix acting identically on both polarisations for True
+    own = oracle_doubled(obs["lean"]) if pol else np.array(core.unmat(obs["lean"]["U"]), dtype=complex)
+    spec = own if (pol or flag is not True) else np_double(own)
+    if "err" not in obs and obs["U"].shape == model_u.shape and np.allclose(obs["U"], model_u, rtol=core.TOL, atol=core.TOL):
+        chk.branch("leaf-pol-own" if pol else ("leaf-ordinary-doubled" if flag is True else "leaf-ordinary-plain"))
+        if model_u.shape != spec.shape or not np.allclose(model_u, spec, atol=1e-9):
+            return ("broken", "model-vs-oracle", "the model's single-component matrix is not the statement's", replay)
+        return None
+    if "err" in obs:
+        return ("violation", "leaf-doubling-raises", f"{cls}.compute_unitary(use_polarization={flag}) raised "
+                f"{obs['err']} ({obs['msg']})", replay)
+    if obs["U"].shape != spec.shape or not np.allclose(obs["U"], spec, atol=1e-7):
+        d = "shape %s vs %s" % (obs["U"].shape, spec.shape) if obs["U"].shape != spec.shape else \
+            "max difference %.3g" % float(np.max(np.abs(obs["U"] - spec)))
+        return ("violation", "leaf-doubling-wrong", f"{cls}.compute_unitary(use_polarization={flag}) is not "
+                + ("the component's own matrix" if spec is own else "matrix_double of the component's own matrix "
+                   "(the same action on both polarisations)") + f" ({d})", replay)
+    return ("broken", "model-vs-code", "Lean model and implementation disagree on a single component but the direct "
+            "oracle holds", replay)
+
+
+def run_leaves(chk, rng, reps):
+    cases = [{"kind": "leaf", "leaf": gen_leaf_of(rng, cls), "flag": flag}
+             for _ in range(reps) for cls in LEAF_CLASSES for flag in (None, True, False)]
+    obs = [observe_leaf(c) for c in cases]
+    answers = chk.lean.ask_many([{"op": "leaf", "kind": o["lean"], "flag": c["flag"]} for c, o in zip(cases, obs)])
+    for case, o, rep in zip(cases, obs, answers):
+        chk.count("kind", "leaf")
+        chk.count("leaf_class", case["leaf"]["t"])
+        chk.case(("F", case["leaf"]["t"], case["flag"], leaf_width(case["leaf"])), nontrivial=case["flag"] is not None,
+                 sample={"kind": "leaf", "class": case["leaf"]["t"], "flag": case["flag"]})
+        res = judge_leaf(chk, case, o, rep)
+        if res is not None:
+            chk.fail(res[0], res[1], res[2], res[3])
+
+
+# ------------------------------------------------------------------------------------------------
+# extension 3b: the input bookkeeping of ONE `Processor` (with_input / with_polarized_input / noise /
+# min_detected_photons_filter / clear_input_and_circuit / probs) against the model's machine `procStep`
+# ------------------------------------------------------------------------------------------------
+NOISE_CHOICES = [None, {}, {"brightness": 0.6}, {"transmittance": 0.5}, {"g2": 0.1}, {"indistinguishability": 0.7},
+                 {"brightness": 0.8, "g2": 0.05}]
+
+
+def make_noise(params):
+    from perceval.utils import NoiseModel
+    return None if params is None else NoiseModel(**params)
+
+
+def canon_tags(text):
+    """distinguishability tags `_:k` of a noisy source are names: renumber them in order of appearance in the state"""
+    import re
+    seen = {}
+    return re.sub(r"_:(\d+)", lambda mt: "_:t%d" % seen.setdefault(mt.group(1), len(seen)), text)
+
+
+def canon_svd(svd):
+    if svd is None:
+        return None
+    acc = {}
+    for sv, p in svd.items():
+        k = canon_tags(str(sv))
+        acc[k] = acc.get(k, 0.0) + float(p)
+    return sorted(acc.items())
+
+
+def same_svd(a, b):
+    if a is None or b is None:
+        return a is None and b is None
+    return len(a) == len(b) and all(x[0] == y[0] and abs(x[1] - y[1]) <= 1e-12 for x, y in zip(a, b))
+
+
+def gen_proc(chk, rng, max_m, max_depth, max_ops, nmax):
+    m = pick_m(rng, max_m)
+    tree = force_polarised(rng, gen_tree(rng, m, rng.randint(0, max_depth), rng.randint(1, max_ops)))
+    plains = []
+    for _ in range(rng.randint(1, 2)):
+        cnt = [0] * m
+        for _ in range(rng.randint(1, nmax)):
+            cnt[rng.randrange(m)] += 1
+        plains.append(cnt)
+    pols = [for_processor(gen_input(rng, m, nmax)) for _ in range(rng.randint(1, 2))]
+    noises = [rng.choice(NOISE_CHOICES[:2])] + [rng.choice(NOISE_CHOICES) for _ in range(2)]
+    if rng.random() < 0.3:
+        noises[0] = rng.choice(NOISE_CHOICES)
+    steps = []
+    have_input = False
+    for _ in range(rng.randint(4, 9)):
+        r = rng.random()
+        if not have_input or r < 0.22:
+            if rng.random() < 0.65:
+                steps.append({"pol": rng.randrange(len(pols))})
+            else:
+                steps.append({"in": rng.randrange(len(plains))})
+            have_input = True
+        elif r < 0.47:
+            steps.append({"noise": rng.randrange(len(noises))})
+        elif r < 0.57:
+            steps.append({"min": rng.choice([0, 0, 1, 2, nmax])})
+        elif r < 0.62:
+            steps.append({"clear": True})
+            have_input = False
+        else:
+            steps.append({"q": True})
+    steps.append({"q": True})
+    return {"kind": "proc", "tree": tree, "backend": rng.choice(["SLOS", "Naive"]), "plains": plains, "pols": pols,
+            "noises": noises, "steps": steps}
+
+
+def observe_proc(case):
+    import perceval as pcvl
+    from perceval.utils import BasicState
+    c, lj = build(copy.deepcopy(case["tree"]))
+    pol_bs = [BasicState(state_text(md)) for md in case["pols"]]
+    out = {"lean": lj, "pol_angles": [read_back(bs) for bs in pol_bs], "pol_n": [bs.n for bs in pol_bs],
+           "pol_canon": [canon_svd(pcvl.SVDistribution(bs)) for bs in pol_bs], "outs": [], "perfect": [], "gen": {}}
+    for z, params in enumerate(case["noises"]):
+        out["perfect"].append(bool(pcvl.Source.from_noise_model(make_noise(params)).is_perfect()))
+        for k, cnt in enumerate(case["plains"]):
+            svd = pcvl.Source.from_noise_model(make_noise(params)).generate_distribution(BasicState(cnt))
+            single = None
+            if len(svd) == 1:
+                sv = list(svd.keys())[0]
+                if len(sv) == 1:
+                    single = list(sv[0])
+            out["gen"][(z, k)] = {"canon": canon_svd(svd), "single": single}
+    p = pcvl.Processor(case["backend"], c, noise=make_noise(case["noises"][0]))
+    for st in case["steps"]:
+        try:
+            if "in" in st:
+                p.with_input(BasicState(case["plains"][st["in"]]))
+                out["outs"].append(None)
+            elif "pol" in st:
+                p.with_polarized_input(pol_bs[st["pol"]])
+                out["outs"].append(None)
+            elif "noise" in st:
+                p.noise = make_noise(case["noises"][st["noise"]])
+                out["outs"].append(None)
+            elif "min" in st:
+                p.min_detected_photons_filter(st["min"])
+                out["outs"].append(None)
+            elif "clear" in st:
+                p.clear_input_and_circuit()
+                p.add(0, c)
+                out["outs"].append(None)
+            else:
+                o = {}
+                try:
+                    res = p.probs()
+                    o["dist"] = {tuple(k): float(v) for k, v in res["results"].items()}
+                    o["perf"] = (float(res["physical_perf"]), float(res["logical_perf"]))
+                except Exception as e:
+                    o.update(exc(e))
+                # what the object holds after the query (the check of the filter comes first: nothing is read if it raised)
+                if o.get("err") != "ValueError":
+                    o["min"] = p.experiment.min_photons_filter
+                    o["sd"] = canon_svd(p.source_distribution)
+                out["outs"].append(o)
+        except Exception as e:
+            out["outs"].append(exc(e))
+    return out
+
+
+def proc_req(case, obs):
+    return {"op": "proc", "nS": [sum(c) for c in case["plains"]], "nI": obs["pol_n"], "perfect": obs["perfect"],
+            "hsum": 0, "z0": 0, "steps": case["steps"]}
+
+
+def proc_expect(chk, case, obs, term, v):
+    """what the simulator must answer when handed the model's term with photon filter v
+    -> ('err', class) | ('sim', lean tree, angles, pseudo selection case)"""
+    if term is None:
+        return ("err", None)             # nothing to simulate: any exception of the simulator
+    if "single" in term:
+        angles = obs["pol_angles"][term["single"]]
+        modes = case["pols"][term["single"]]
+    else:
+        z, k = term.get("gen") or term["genpol"]
+        if "genpol" in term:
+            return ("broken", "the model sends a polarised state through the source")
+        g = obs["gen"][(z, k)]
+        if g["single"] is None:
+            return ("err", "NotImplementedError")
+        angles = [[(0.0, 0.0)] * cnt for cnt in g["single"]]
+        modes = [{"kind": "vac"} if cnt == 0 else {"kind": "plain", "n": cnt} for cnt in g["single"]]
+    pseudo = {"sel": {"heralds": [], "ps": None, "psj": True, "keep": False, "v": v}, "modes": modes}
+    return ("sim", obs["lean"], angles, pseudo)
+
+
+def judge_proc(chk, case, obs=None, rep=None, count=False):
+    if obs is None:
+        obs = observe_proc(case)
+    if rep is None:
+        rep = chk.lean.ask(proc_req(case, obs))
+    replay = {"case": case}
+    if "err" in rep:
+        return ("broken", "model-rejects", f"model rejects a processor history: {rep['err']}", replay)
+    last_input = None
+    noise_since_input = False
+    for k, (st, real, mod) in enumerate(zip(case["steps"], obs["outs"], rep["outs"])):
+        where = f"step {k} ({json.dumps(st)}) of {json.dumps(case['steps'])}"
+        if "pol" in st or "in" in st:
+            if count and last_input is not None and ("pol" in st) != ("pol" in last_input):
+                chk.branch("proc-pol-after-plain" if "pol" in st else "proc-plain-after-pol")
+            last_input, noise_since_input = st, False
+        elif "noise" in st:
+            noise_since_input = True
+        elif "clear" in st:
+            last_input = None
+            if count:
+                chk.branch("proc-clear")
+        if "q" not in st:
+            if real is not None:
+                return ("broken", "setter-raises", f"{where}: raised {real}", replay)
+            if mod is not None:
+                return ("broken", "model-vs-code", f"{where}: model replied {mod}", replay)
+            continue
+        if mod is None:
+            return ("broken", "model-vs-code", f"{where}: model gave no reply", replay)
+        if "err" in mod:
+            # check_min_detected_photons_filter refuses (no value, and no perfect source / no input)
+            if real.get("err") == mod["err"]:
+                if count:
+                    chk.branch("proc-auto-filter-refused")
+                continue
+            return ("broken", "error-class", f"{where}: real code {real.get('err', 'answered')}, model {mod['err']}", replay)
+        if real.get("err") == "ValueError" and "min_detected_photons" in real.get("msg", ""):
+            return ("broken", "model-vs-code", f"{where}: the filter check refused, the model answers", replay)
+        term, v = mod["dist"], mod["min"]
+        # 1. what the object hands to the simulator: the cached input distribution and the photon filter
+        if term is None:
+            want_sd = None
+        elif "single" in term:
+            want_sd = obs["pol_canon"][term["single"]]
+        elif "gen" in term:
+            want_sd = obs["gen"][tuple(term["gen"])]["canon"]
+        else:
+            want_sd = "source(polarised)"
+        if "sd" in real and not same_svd(real["sd"], want_sd):
+            pol = last_input is not None and "pol" in last_input
+            if pol:
+                return ("violation", "polarised-input-through-source",
+                        f"{where}: the processor was given the polarised input {state_text(case['pols'][last_input['pol']])} "
+                        f"and hands the simulator {real['sd']!r} instead of that state (noise models "
+                        f"{case['noises']})", replay)
+            # direct oracle for an ordinary input: a fresh source of the noise in force
+            return ("violation", "stale-input-distribution",
+                    f"{where}: source_distribution is {real['sd']!r}; a fresh source of the noise model in force on the "
+                    f"input in force gives {want_sd!r}", replay)
+        if real.get("min") is not None and real["min"] != v:
+            return ("broken", "model-vs-code", f"{where}: photon filter {real['min']}, model {v}", replay)
+        if count:
+            if last_input is not None and noise_since_input:
+                chk.branch("proc-pol-after-noise" if "pol" in last_input else "proc-plain-after-noise")
+            chk.branch("proc-query")
+        # 2. the reply of probs()
+        exp = proc_expect(chk, case, obs, term, v)
+        if exp[0] == "broken":
+            return ("broken", "model-vs-code", f"{where}: {exp[1]}", replay)
+        if exp[0] == "err":
+            if "err" not in real or (exp[1] is not None and real["err"] != exp[1]):
+                return ("broken", "error-class", f"{where}: expected {exp[1] or 'an exception'}, got "
+                        f"{real.get('err', 'an answer')}", replay)
+            if count:
+                chk.branch("proc-noisy-source-rejected" if exp[1] else "proc-no-input")
+            continue
+        _, lj, angles, pseudo = exp
+        r2 = chk.lean.ask({"op": "select", "tree": lj, "modes": lean_modes(angles), "fixed": True, "filterFixed": True,
+                           "sel": lean_sel(pseudo["sel"], v)})
+        if "err" in r2:
+            if "err" in real:
+                continue
+            return ("broken", "model-rejects", f"{where}: model rejects the simulation ({r2['err']})", replay)
+        model = {tuple(t): float(Fraction(pr)) for t, pr in r2["results"]}
+        mphys, mlogic = float(Fraction(r2["phys"])), float(Fraction(r2["logic"]))
+        why = None
+        if "err" in real:
+            why = f"raised {real['err']}: {real['msg']}"
+        else:
+            for t in set(real["dist"]) | set(model):
+                if not core.close(real["dist"].get(t, 0.0), model.get(t, 0.0)):
+                    why = f"P{list(t)} = {real['dist'].get(t, 0.0)!r}, exact {model.get(t, 0.0)!r}"
+                    break
+            if why is None and not core.close(real["perf"][0], mphys):
+                why = f"physical_perf {real['perf'][0]!r}, exact {mphys!r}"
+            if why is None and mphys > 0 and not core.close(real["perf"][1], mlogic):
+                why = f"logical_perf {real['perf'][1]!r}, exact {mlogic!r}"
+        if why is None:
+            if count and "single" in term:
+                chk.branch("proc-polarised-simulated")
+            continue
+        status, res, phys, logic = oracle_select(lj, angles, pseudo)
+        if status == "ok" and "err" not in real:
+            bad = [t for t in set(real["dist"]) | set(res) if abs(real["dist"].get(t, 0.0) - res.get(t, 0.0)) > 1e-6]
+            if bad or abs(real["perf"][0] - phys) > 1e-6:
+                return ("violation", "processor-input-not-simulated",
+                        f"{where}: probs() is not the polarised simulation of the input in force with photon filter {v}: "
+                        f"{why}", replay)
+        if status == "ok" and "err" in real:
+            return ("violation", "processor-probs-raises", f"{where}: {why}", replay)
+        return ("broken", "model-vs-code", f"{where}: {why}", replay)
+    return None
+
+
+def shrink_proc(chk, case, sig):
+    def fails(c):
+        try:
+            r = judge_proc(chk, c)
+        except Exception:
+            return False
+        return r is not None and r[1] == sig
+    cur = copy.deepcopy(case)
+    cur["steps"] = gens.shrink_list(cur["steps"], lambda st: fails({**cur, "steps": st}), max_rounds=40)
+    return cur
+
+
+def run_procs(chk, rng, n, max_m, max_depth, max_ops, nmax):
+    cases = [gen_proc(chk, rng, max_m, max_depth, max_ops, nmax) for _ in range(n)]
+    handle_procs(chk, cases)
+
+
+def handle_procs(chk, cases):
+    obs = [observe_proc(c) for c in cases]
+    answers = chk.lean.ask_many([proc_req(c, o) for c, o in zip(cases, obs)])
+    for case, o, rep in zip(cases, obs, answers):
+        chk.count("kind", "proc")
+        chk.count("proc_steps", len(case["steps"]))
+        pat = tuple(next(iter(st)) for st in case["steps"])
+        chk.case(("R", case["backend"], tree_sig(case["tree"]), pat),
+                 nontrivial=any("noise" in st for st in case["steps"]) and any("pol" in st for st in case["steps"]),
+                 sample={"kind": "proc", "steps": case["steps"], "noises": case["noises"]})
+        res = judge_proc(chk, case, o, rep, count=True)
+        if res is not None:
+            small = case
+            if not case.get("corpus"):
+                try:
+                    small = shrink_proc(chk, case, res[1])
+                except Exception:
+                    small = case
+            chk.fail(res[0], res[1], res[2], {"case": small})
+
+
 def pick_m(rng, max_m):
     """mostly the larger sizes (one spatial mode has no mode mixing)"""
     return rng.choice([1] + list(range(2, max_m + 1)) * 3 + [max_m] * 2)
@@ -2133,7 +2538,9 @@ def run(chk: core.Check):
                 "object), convert_polarized_state(use_symbolic, inverse) incl. inadmissible inputs, and selection "
                 "(0-2 heralds, post-selection expressions of depth <= 2, min_detected_photons_filter in {0, n-h, auto, "
                 "random, v+h>n corner, n+1}, threshold/PPNR/PNR detectors) on polarised Processors and simulators; "
-                "distinct = distinct "
+                "plus every component class x use_polarization flag on ONE component, and Processor histories "
+                "(with_input / with_polarized_input / noise / min_detected_photons_filter / clear / probs) against the "
+                "model's bookkeeping machine; distinct = distinct "
                 "(path, circuit shape, input pattern / step pattern); non-trivial = circuit has a polarising and an "
                 "ordinary mode-mixing component and (for simulations) a non-H/V polarisation")
     chk.assumptions = [
@@ -2150,6 +2557,8 @@ def run(chk: core.Check):
         "polarisation are added)",
         "selection: when the physical performance is 0 the logical performance is not compared (unspecified)",
         "symbolic conversion: sympy expressions are evaluated to complex numbers with sympy.N before comparison",
+        "processor histories: Source.generate_distribution is taken as a function of (noise model, input) up to renaming "
+        "of the distinguishability tags (evaluated on a fresh Source); no heralds, ordinary BasicState inputs only",
     ]
     chk.required_branches = [
         "wp", "hwp", "qwp", "pr", "pbs", "pol-unitary", "plain-leaf", "nested-plain-subcircuit",
@@ -2170,7 +2579,11 @@ def run(chk: core.Check):
         "convert-symbolic-rejected", "convert-rejected",
         "select-processor", "select-factory", "select-heralds", "select-ps", "select-auto-filter", "select-detectors",
         "select-keep-heralds", "select-filter-corner", "select-filter-rejects", "select-retained",
-        "select-nothing-retained"]
+        "select-nothing-retained",
+        # extension 3: one component of every class x flag; the Processor's input bookkeeping
+        "leaf-pol-own", "leaf-ordinary-doubled", "leaf-ordinary-plain", "leaf-pol-false-rejected",
+        "proc-query", "proc-pol-after-noise", "proc-plain-after-noise", "proc-auto-filter-refused", "proc-clear",
+        "proc-pol-after-plain", "proc-plain-after-pol", "proc-noisy-source-rejected", "proc-polarised-simulated"]
     chk.lean = LockedLean(core.LeanDriver("C13"))
     check_labels(chk)
     rng = chk.rng
@@ -2181,14 +2594,18 @@ def run(chk: core.Check):
     nmax = 3
     corpus = load_corpus()
     if corpus:
-        handle_batch(chk, [c for c in corpus if c["kind"] != "session"])
+        handle_batch(chk, [c for c in corpus if c["kind"] not in ("session", "proc", "leaf")])
         handle_sessions(chk, [c for c in corpus if c["kind"] == "session"])
+        handle_procs(chk, [c for c in corpus if c["kind"] == "proc"])
     cases = [gen_case(chk, rng, max_m, max_depth, max_ops, nmax) for _ in range(n)]
     cases += [gen_case_ext(chk, rng, max_m, max_depth, max_ops, nmax) for _ in range(chk.pick(300, 2600))]
     ns = chk.pick(120, 600)
     sessions = [gen_session(chk, rng, max_m, max_depth, max_ops, nmax, chk.pick(4, 6)) for _ in range(ns)]
     pipelined(chk, [cases[i:i + 100] for i in range(0, len(cases), 100)], prepare_batch, finish_batch)
     pipelined(chk, [sessions[i:i + 30] for i in range(0, len(sessions), 30)], prepare_sessions, finish_sessions)
+    # extension 3 (generated after everything else: the cases above are the same as before for a given seed)
+    run_leaves(chk, rng, chk.pick(2, 10))
+    run_procs(chk, rng, chk.pick(70, 500), max_m, max_depth, max_ops, nmax)
 
 
 def replay(chk, data):
@@ -2203,5 +2620,11 @@ def replay(chk, data):
     case["corpus"] = "replay"
     if case["kind"] == "session":
         handle_sessions(chk, [case])
+    elif case["kind"] == "proc":
+        handle_procs(chk, [case])
+    elif case["kind"] == "leaf":
+        res = judge_leaf(chk, case)
+        if res is not None:
+            chk.fail(res[0], res[1], res[2], res[3])
     else:
         handle_batch(chk, [case])
